@@ -7,7 +7,7 @@ use std::{
 use thiserror::Error;
 
 pub const DOMAIN_NAME_MAX_RECURSION: usize = 16;
-pub const DOMAIN_NAME_MAX_LENGTH: usize = 256;
+pub const DOMAIN_NAME_MAX_LENGTH: usize = 255;
 
 #[derive(Debug, PartialEq, Eq, Error)]
 pub enum DomainNameError {
